@@ -14,13 +14,30 @@ import (
 type c42Case struct {
 	P     *refmqtt.Packet `json:"p"`
 	Style refmqtt.Style   `json:"style"`
+	// byte side (native fuzzing): a byte string the strict reference decoder reads as one client-to-server packet
+	Bytes   []byte `json:"bytes,omitempty"`
+	Version byte   `json:"version,omitempty"`
 }
 
 func c42Check(c c42Case, r *evid.Rec) []evid.Disc {
 	p := c.P
-	enc := refmqtt.Encode(p, c.Style)
+	var enc []byte
+	if p == nil {
+		rp, n, err := refmqtt.Decode(c.Bytes, c.Version, refmqtt.ClientToServer)
+		if err != nil || n != len(c.Bytes) {
+			r.Label("bytes-not-a-valid-client-packet")
+			return nil
+		}
+		p, enc = rp, c.Bytes
+		r.Label("bytes-valid/" + refmqtt.TypeName(p.Type))
+		if nontrivialPacket(p) {
+			r.NonTrivial(fmt.Sprintf("b%x", c.Bytes))
+		}
+	} else {
+		enc = refmqtt.Encode(p, c.Style)
+	}
 	// the reference decoder must itself read the styled bytes as p (guards the oracle)
-	if rp, _, err := refmqtt.Decode(enc, p.Version, refmqtt.ClientToServer); err != nil || !refmqtt.Equal(rp, p) {
+	if rp, _, err := refmqtt.Decode(enc, p.Version, refmqtt.ClientToServer); c.P != nil && (err != nil || !refmqtt.Equal(rp, p)) {
 		return []evid.Disc{evid.D("C42-harness-self-check", "reference codec does not round-trip its own styled encoding of %s: %v", p, err)}
 	}
 	form := ""
